@@ -16,11 +16,15 @@ REGISTRATION = {
             "end offset = file length; per-string/array/count/offset bounds derived from the file length); the same file decoded at any "
             "aligned position inside a bigger file ends at position + length (decode_written_file_at) and several written files uploaded "
             "back to back become exactly one layer per file (create_layers_of_written_files); create's ggufLayers takes a single such file as exactly one layer, the uploaded blob itself (create_takes_written_file_whole). "
+            "for the tensor list the CALLER passed (the writer sorts it; any permutation): write_decode_caller_list; for the writer of the tree, "
+            "which since c8efab438 refuses a general.alignment that is not a non-zero uint32 (finding F1c: upstream wrote such files and its decoder "
+            "rejected them; both writers are in the model, which one the tree has is probed on every run and the strict one is required): "
+            "write_decode_full_repaired_writer has no alignment hypothesis left. "
             "ggufPadding is executed over offsets x alignments on every run and compared with the model by decide (padding_table_matches). Model = code is checked byte-for-byte on thousands of generated files per run, and the "
             "property predicate is evaluated on the real decoder's view of the real writer's file.",
     "design_ref": "DESIGN.md §5 C05",
     "note": COMMON_NOTE + "Modelled, not verified: the tensor sort (any permutation is covered by the theorem; "
-            "the harness reads the order the real sort produced back from the data sources), Tensor.WriterTo writes exactly Size() bytes "
+            "the harness reads the written order from the sequence of WriteTo calls and checks it is a permutation), Tensor.WriterTo writes exactly Size() bytes "
             "(WfT), file-system writes are faithful.",
 }
 
@@ -31,6 +35,7 @@ THEOREMS = [
     "OllamaVerif.C05.decode_encode_any_key_order",
     "OllamaVerif.C05.write_decode_full",
     "OllamaVerif.C05.write_decode_full_repaired_writer",
+    "OllamaVerif.C05.write_decode_caller_list",
     "OllamaVerif.C05.F1c_writer_accepts_what_decoder_rejects",
     "OllamaVerif.C05.F1c_zero_alignment_without_tensors",
     "OllamaVerif.C05.fileOf1_is_encode",
@@ -60,7 +65,7 @@ REQUIRED_COUNTERS = [
     "cases_no_tensor", "cases_ge3_tensors", "cases_sort_reordered", "cases_alignment_not_32",
     "cases_alignment_not_power_of_two", "cases_alignment_invalid",
     "tensor_size_not_multiple_of_32", "decode_at_offset_cases", "failing_source_cases",
-    "tensor_size_checked_independently",
+    "tensor_size_checked_independently", "writer_validates_alignment", "write_refused_invalid_alignment",
 ]
 REQUIRED_API_COUNTERS = ["api_multi_model_files", "api_multi_ok", "api_multi_err"]
 OVERLAY = {"fs/ggml/zz_verif_gguf_test.go": "fs_ggml/zz_verif_gguf_test.go"}
@@ -70,6 +75,8 @@ def regenerate(ctx):
     """Tie 1: execute the real Tensor.typeSize/blockSize for kinds 0..63 and emit the table."""
     rc, out, outdir = ctx.go_test("./fs/ggml/", OVERLAY, "^TestVerifC05Table$")
     rows, prow = [], []
+    if rc != 0:
+        ctx.violation("driver-failed", "table", "TestVerifC05Table failed: " + out[-800:], no_input=True)
     if rc == 0:
         for line in open(outdir + "/table.txt"):
             k, ts, bs = line.split()
@@ -123,7 +130,9 @@ def run(ctx):
             ctx.violation("correspondence-coverage", "api", "create-level branches never exercised: " + ", ".join(amissing), no_input=True)
         failures += [f for f in ctx.l2(apidir) if f["kind"] == "api-create-layer-not-one-model"]
         ctx.oracle_name = "C10"
-        ctx.lake_build(["oracle-c10"])
+        built = ctx.lake_build(["oracle-c10"])
+        if built is False or (isinstance(built, tuple) and not built[0]):
+            ctx.violation("machinery-error", "oracle-c10", "oracle-c10 did not build; L1-create would use a stale binary", no_input=True)
         ctx.l1(apidir, label="L1-create")
         ctx.oracle_name = None
     ctx.classify(failures)
